@@ -58,6 +58,8 @@ def parseNetStep (st : String) : List Step :=
   else if op = 'q' then [.request (rest.toNat?.getD 0)]
   -- `h<k>` … `t<k>`: one request delivered in two segments with other steps in between: nothing
   -- happens at `h`, the request is answered at `t` (the harness prints it as `q<k>`)
+  -- `J<n>`: shutdown requested behind n queued decode-level commands, before the task first runs
+  else if op = 'J' then [.shutdown]
   else if op = 'h' then []
   else if op = 't' then [.request (rest.toNat?.getD 0)]
   else if op = 'P' then
